@@ -1,21 +1,189 @@
 (* C19 — Channel helpers never lose, duplicate or invent a value.
    Statements only; every proof is [exact] of a lemma from
-   Chans/HelpersProofs.v.  Quantifiers: every value type, every channel state,
-   every schedule of environment actions and helper steps (no bound). *)
+   Chans/HelpersProofs.v.  Quantifiers: every value type V (with its zero
+   value), every channel state (capacity, contents, open/closed, parked
+   partners), every schedule [sched : list action] interleaving the helper's
+   steps with environment actions (other goroutines sending, receiving,
+   closing, giving up; the timer firing / the context being cancelled at any
+   moment), both outcomes of a select with two ready branches.  No bound.
+   [log] is the machine's ghost record of completed sends and receives;
+   [sent_by Helper] / [rcvd_by Helper] are the helper's own entries. *)
+From Coq Require Import Permutation.
 From Typ Require Import Lib.Base Lib.Chan Chans.Helpers Chans.HelpersProofs.
 
-(* SendTimeout / SendContext, after ANY interleaving with the other goroutines,
-   the timer and the context: the call received nothing; it is still waiting and
-   has sent nothing, or returned true and handed its value over exactly once,
-   or returned false (only through the timer/context branch) and sent nothing,
-   or panicked on a closed channel and sent nothing. *)
+(* ---- the channel machine: nothing is lost, duplicated or invented ---- *)
+
+(* From a runtime-reachable channel state c and an empty log, under every
+   schedule and whatever the helper is: the state stays runtime-reachable, and
+   initial contents ++ completed sends (in completion order) = all receives
+   (in order) ++ current contents.  FIFO form; implies the multiset form. *)
+Theorem C19_conservation : forall (V : Type) (zero : V) (sched : list (action V)) (c : chan V) (dn : bool) (p : pc V),
+  wf c ->
+  let w' := fst (run zero sched (World c dn [], p)) in
+  wf (ch w') /\ buf c ++ sent_vals (log w') = rcvd_vals (log w') ++ buf (ch w').
+Proof. exact @conservation. Qed.
+Print Assumptions C19_conservation.
+
+(* multiset received + buffered = multiset sent (+ initially buffered) *)
+Theorem C19_conservation_multiset : forall (V : Type) (zero : V) (sched : list (action V)) (c : chan V) (dn : bool) (p : pc V),
+  wf c ->
+  let w' := fst (run zero sched (World c dn [], p)) in
+  Permutation (sent_vals (log w') ++ buf c) (rcvd_vals (log w') ++ buf (ch w')).
+Proof. exact @conservation_multiset. Qed.
+Print Assumptions C19_conservation_multiset.
+
+(* every logged operation is the helper's or the environment's, in order *)
+Theorem C19_log_parts : forall (V : Type) (l : list (event V)),
+  length (sent_vals l) = length (sent_by Helper l) + length (sent_by Env l) /\
+  length (rcvd_vals l) = length (rcvd_by Helper l) + length (rcvd_by Env l) /\
+  subseq (sent_by Helper l) (sent_vals l) /\ subseq (rcvd_by Helper l) (rcvd_vals l).
+Proof. exact @log_parts. Qed.
+Print Assumptions C19_log_parts.
+
+(* ---- SendTimeout / SendContext ---- *)
+
+(* After ANY schedule the call has received nothing, and: it is still waiting
+   and has sent nothing; or returned true and handed its value over exactly
+   once; or returned false — only through the timer/context branch, which has
+   fired — and sent nothing; or panicked on a closed channel and sent nothing. *)
 Theorem C19_send_iff_handed : forall (V : Type) (zero : V) (sched : list (action V)) (w : world V) (v : V) (p0 : pc V),
   (exists timeout, p0 = SendTimeout v timeout) \/ p0 = SendContext v ->
   send_outcome v p0 w (run zero sched (w, p0)).
 Proof. exact @send_iff_handed. Qed.
 Print Assumptions C19_send_iff_handed.
 
+(* timeout <= 0: no timer branch; false is never returned whatever the timer does *)
 Theorem C19_send_no_limit : forall (V : Type) (zero : V) (sched : list (action V)) (w : world V) (v : V) (timeout : Z),
   (timeout <= 0)%Z -> snd (run zero sched (w, SendTimeout v timeout)) <> PRet (RBool false).
 Proof. exact @send_no_limit. Qed.
 Print Assumptions C19_send_no_limit.
+
+(* ---- RecvTimeout / RecvContext ---- *)
+
+(* After ANY schedule the call has sent nothing, and: it is still waiting and
+   has taken nothing; or returned (x,true) having taken exactly x; or returned
+   (zero,false) having taken nothing, either through the fired timer/context
+   branch or because the channel is closed and drained. *)
+Theorem C19_recv_iff_taken : forall (V : Type) (zero : V) (sched : list (action V)) (w : world V) (p0 : pc V),
+  (exists timeout, p0 = RecvTimeout timeout) \/ p0 = RecvContext ->
+  recv_outcome zero p0 w (run zero sched (w, p0)).
+Proof. exact @recv_iff_taken. Qed.
+Print Assumptions C19_recv_iff_taken.
+
+(* timeout <= 0: no timer branch; false only from a closed and drained channel *)
+Theorem C19_recv_no_limit : forall (V : Type) (zero : V) (sched : list (action V)) (w : world V) (timeout : Z) (x : V),
+  (timeout <= 0)%Z ->
+  let st' := run zero sched (w, RecvTimeout timeout) in
+  snd st' = PRet (RRecv x false) -> closed (ch (fst st')) = true /\ buf (ch (fst st')) = [].
+Proof. exact @recv_no_limit. Qed.
+Print Assumptions C19_recv_no_limit.
+
+(* a closed and drained channel counts as false: at once, world unchanged, whichever select branch is taken *)
+Theorem C19_recv_closed_false : forall (V : Type) (zero : V) (choice : bool) (w : world V) (p0 : pc V),
+  p0 = PRecvBlock \/ p0 = PRecvSelect ->
+  closed (ch w) = true -> buf (ch w) = [] -> sendq (ch w) = [] ->
+  hstep zero choice w p0 = Some (w, PRet (RRecv zero false)).
+Proof. exact @recv_closed_false. Qed.
+Print Assumptions C19_recv_closed_false.
+
+(* ---- RecvQueued / RecvQueuedFull ---- *)
+
+(* never block: the next step is enabled in every world *)
+Theorem C19_queued_never_block : forall (V : Type) (zero : V) (choice : bool) (w : world V),
+  (forall buffer m, hstep zero choice w (PQueued buffer m) <> None) /\
+  (forall index bf, hstep zero choice w (PQueuedFull index bf) <> None).
+Proof. exact @queued_never_blocks. Qed.
+Print Assumptions C19_queued_never_block.
+
+(* with a concurrent environment: sends nothing; holds/returns exactly the
+   values it took, in order, at most maxValues; has returned after
+   maxValues+1 of its own steps *)
+Theorem C19_recv_queued_any_schedule : forall (V : Type) (zero : V) (sched : list (action V)) (w : world V) (m : Z),
+  queued_outcome m w sched (run zero sched (w, RecvQueued m)).
+Proof. exact @recv_queued_any_schedule. Qed.
+Print Assumptions C19_recv_queued_any_schedule.
+
+(* ... and those values are an order-preserving part of everything received
+   from the channel, itself a prefix of initial contents ++ completed sends:
+   FIFO-consistent, nothing invented *)
+Theorem C19_recv_queued_fifo : forall (V : Type) (zero : V) (sched : list (action V)) (c : chan V) (dn : bool) (m : Z),
+  wf c ->
+  let st' := run zero sched (World c dn [], RecvQueued m) in
+  exists l, (snd st' = PQueued l m \/ snd st' = PRet (RList l)) /\
+    subseq l (rcvd_vals (log (fst st'))) /\
+    buf c ++ sent_vals (log (fst st')) = rcvd_vals (log (fst st')) ++ buf (ch (fst st')).
+Proof. exact @recv_queued_fifo. Qed.
+Print Assumptions C19_recv_queued_fifo.
+
+Theorem C19_recv_queued_full_any_schedule : forall (V : Type) (zero : V) (sched : list (action V)) (w : world V) (buf0 : list V),
+  full_outcome buf0 w sched (run zero sched (w, RecvQueuedFull buf0)).
+Proof. exact @recv_queued_full_any_schedule. Qed.
+Print Assumptions C19_recv_queued_full_any_schedule.
+
+(* no other goroutine on the channel: every capacity, contents b, open/closed
+   state and limit m; any m+1 own steps give exactly firstn m b, leave skipn m
+   b, log one receive per value and change nothing else *)
+Theorem C19_recv_queued_alone : forall (V : Type) (zero : V) (b : list V) (cp : nat) (cl : bool) (rq : nat) (dn : bool)
+    (lg : list (event V)) (m : Z) (choices : list bool),
+  Z.to_nat m + 1 <= length choices ->
+  run zero (map AHelp choices) (World (Chan b cp cl [] rq) dn lg, RecvQueued m)
+  = (World (Chan (skipn (Z.to_nat m) b) cp cl [] rq) dn (lg ++ map (Rcvd Helper) (firstn (Z.to_nat m) b)),
+     PRet (RList (firstn (Z.to_nat m) b))).
+Proof. exact @recv_queued_alone. Qed.
+Print Assumptions C19_recv_queued_alone.
+
+(* RecvQueuedFull alone: takes firstn (len buf) b, writes it to the front of
+   buf, leaves the rest of buf and of the channel, returns the count *)
+Theorem C19_recv_queued_full_alone : forall (V : Type) (zero : V) (b : list V) (cp : nat) (cl : bool) (rq : nat) (dn : bool)
+    (lg : list (event V)) (buf0 : list V) (choices : list bool),
+  length buf0 + 1 <= length choices ->
+  let taken := firstn (length buf0) b in
+  run zero (map AHelp choices) (World (Chan b cp cl [] rq) dn lg, RecvQueuedFull buf0)
+  = (World (Chan (skipn (length buf0) b) cp cl [] rq) dn (lg ++ map (Rcvd Helper) taken),
+     PRet (RFull (length taken) (taken ++ skipn (length taken) buf0))).
+Proof. exact @recv_queued_full_alone. Qed.
+Print Assumptions C19_recv_queued_full_alone.
+
+(* ---- non-vacuity: concrete runs of the machine ---- *)
+
+(* the hypothesis [wf] is satisfiable: full buffer with a parked sender; unbuffered with two parked receivers; closed with a value left *)
+Example C19_wf_example : wf (Chan [1; 2]%Z 2 false [3]%Z 0) /\ wf (Chan ([] : list Z) 0 false [] 2) /\
+                         wf (Chan [5]%Z 3 true [] 0).
+Proof. exact wf_example. Qed.
+
+Example C19_example :
+  let open0 := World (Chan ([] : list Z) 0 false [] 0) false [] in
+  (* unbuffered, receiver arrives late, timer fires afterwards: true, handed over exactly once *)
+  run 0%Z [AHelp true; AEnv ERecv; AHelp true; AEnv EDone] (open0, SendTimeout 7%Z 5%Z)
+    = (World (Chan [] 0 false [] 0) true [Sent Helper 7%Z; Rcvd Env 7%Z], PRet (RBool true)) /\
+  (* the timer fires first: false, nothing sent, the late receiver stays parked *)
+  run 0%Z [AHelp true; AEnv EDone; AHelp true; AEnv ERecv] (open0, SendTimeout 7%Z 5%Z)
+    = (World (Chan [] 0 false [] 1) true [], PRet (RBool false)) /\
+  (* timeout <= 0: the fired timer is ignored, the call waits for the receiver *)
+  run 0%Z [AEnv EDone; AHelp false; AEnv ERecv; AHelp false] (open0, SendTimeout 7%Z 0%Z)
+    = (World (Chan [] 0 false [] 0) true [Sent Helper 7%Z; Rcvd Env 7%Z], PRet (RBool true)) /\
+  (* both branches ready: either outcome, conservation in both *)
+  run 0%Z [AHelp true] (World (Chan [1]%Z 2 false [] 0) true [], SendContext 7%Z)
+    = (World (Chan [1; 7]%Z 2 false [] 0) true [Sent Helper 7%Z], PRet (RBool true)) /\
+  run 0%Z [AHelp false] (World (Chan [1]%Z 2 false [] 0) true [], SendContext 7%Z)
+    = (World (Chan [1]%Z 2 false [] 0) true [], PRet (RBool false)) /\
+  (* receive: parked sender on an unbuffered channel; closed and drained channel *)
+  run 0%Z [AEnv (ESend 4%Z); AHelp true] (open0, RecvContext)
+    = (World (Chan [] 0 false [] 0) false [Sent Env 4%Z; Rcvd Helper 4%Z], PRet (RRecv 4%Z true)) /\
+  run 0%Z [AHelp true; AEnv EClose; AHelp true] (open0, RecvTimeout (-1)%Z)
+    = (World (Chan [] 0 true [] 0) false [], PRet (RRecv 0%Z false)) /\
+  (* RecvQueued alone: prefix taken, rest left, stops at the closure without inventing zeros *)
+  run 0%Z (map AHelp [true; true; true]) (World (Chan [1; 2; 3]%Z 3 true [] 0) false [], RecvQueued 2%Z)
+    = (World (Chan [3]%Z 3 true [] 0) false [Rcvd Helper 1%Z; Rcvd Helper 2%Z], PRet (RList [1; 2]%Z)) /\
+  run 0%Z (map AHelp [true; true; true; true; true; true]) (World (Chan [1; 2]%Z 3 true [] 0) false [], RecvQueued 5%Z)
+    = (World (Chan [] 3 true [] 0) false [Rcvd Helper 1%Z; Rcvd Helper 2%Z], PRet (RList [1; 2]%Z)) /\
+  (* RecvQueued with concurrent senders (one parked on the full buffer) *)
+  run 0%Z [AEnv (ESend 1%Z); AEnv (ESend 2%Z); AHelp true; AEnv (ESend 3%Z); AHelp true; AHelp true; AHelp true; AHelp true]
+      (World (Chan ([] : list Z) 1 false [] 0) false [], RecvQueued 5%Z)
+    = (World (Chan [] 1 false [] 0) false
+         [Sent Env 1%Z; Rcvd Helper 1%Z; Sent Env 2%Z; Rcvd Helper 2%Z; Sent Env 3%Z; Rcvd Helper 3%Z],
+       PRet (RList [1; 2; 3]%Z)) /\
+  (* RecvQueuedFull: two queued values into a buf of three *)
+  run 0%Z (map AHelp [true; true; true; true]) (World (Chan [1; 2]%Z 2 false [] 0) false [], RecvQueuedFull [9; 9; 9]%Z)
+    = (World (Chan [] 2 false [] 0) false [Rcvd Helper 1%Z; Rcvd Helper 2%Z], PRet (RFull 2 [1; 2; 9]%Z)).
+Proof. vm_compute. repeat split. Qed.
